@@ -204,6 +204,7 @@ inductive Func where
   | count (args : List Nat)
   | cond (c : AlgCon)                 -- ConditionalConstraint<Con>
   | pl (pts : List (Rat × Rat)) (a : Nat)   -- PLConstraint (points form)
+  | pow (a : Nat) (k : Nat)                 -- PowConstraint with a non-negative integer exponent
   deriving Repr, Inhabited
 
 def Func.vars : Func → List Nat
@@ -213,6 +214,7 @@ def Func.vars : Func → List Nat
   | .numberofVar v0 a => v0 :: a
   | .abs a | .not a => [a]
   | .pl _ a => [a]
+  | .pow a _ => [a]
   | .div a b => [a, b]
   | .ifthen c t e | .impl c t e => [c, t, e]
   | .cond c => c.body.vars
@@ -263,6 +265,7 @@ def Func.value (f : Func) (e : Env) : Rat :=
   | .count a => (((a.map e.x).filter (fun v => decide ((1/2 : Rat) ≤ v))).length : Nat)
   | .cond c => b2r (c.isValid (c.body.val e.x))
   | .pl pts a => plValue pts (e.x a)
+  | .pow a k => (e.x a) ^ k
 
 inductive Ctx where | none | pos | neg | mix
   deriving DecidableEq, Repr, Inhabited
